@@ -11,6 +11,9 @@ R2Body == Star(Str(<<a>>))                       \* always succeeds
 Leaves == { Str(<<a>>), Str(<<b>>), Str(<<a, b>>), Str(<<>>), StrI(<<a>>),
             APlus, AStar, BorAB, FailE, Back(1), PyInt(7), Ref("R1"), Ref("R2") }
 
+(* bytes mode: byte literals, byte strings, byte regexes (the same abstract syntax; the text is a bytes object) *)
+LeavesB == { <<"byte", a>>, <<"byte", b>>, Str(<<a>>), Str(<<a, b>>), Str(<<>>), APlus, AStar, BorAB, FailE, Ref("R1"), Ref("R2") }
+
 SmallLeaves == { Str(<<a>>), Str(<<a, b>>), AStar, Ref("R1"), BorAB }
 
 UForms == {"opt", "star", "plus", "r22", "r12", "r2n", "expect", "not", "skip1", "seq1"}
